@@ -2,6 +2,8 @@
 
 package ast
 
+import pAst "github.com/smarthome-go/homescript/v3/homescript/parser/ast"
+
 // Specification vocabulary and contracts checked by /verif/hvc (build tag
 // verif only; see /verif/DESIGN.md).
 
@@ -22,6 +24,73 @@ func VTypeWF(t Type) bool {
 	case ListType:
 		return x.Inner != nil && VTypeWF(x.Inner)
 	case UnknownType, NeverType, AnyType, NullType, IntType, FloatType, BoolType, StringType, RangeType, AnyObjectType, ObjectType, FunctionType:
+		return true
+	}
+	return false
+}
+
+// Re-spanning a type keeps its kind.
+
+/*@ template for (self ?*Type) SetSpan
+    serves C03
+    assume-safety
+    modifies nothing
+    ensures @same-kind result != nil && result.Kind() == self.Kind()
+@*/
+
+/*@ func (self ObjectType) SetSpan
+    assumepre SetSpan
+    loop 1 invariant cap(newFields) == 0 || fresh(newFields)
+@*/
+
+// ---------------------------------------------------------------------------
+// Static rules of the infix operators (C03): which operator the language
+// admits on which operand type, and the type of the result. The run-time
+// contracts (compiler lowering, VM instructions, interpreter) take their
+// operand-kind preconditions from this table.
+
+// VScalarKind: the types with operator support of their own.
+func VScalarKind(k TypeKind) bool {
+	return k == IntTypeKind || k == FloatTypeKind || k == BoolTypeKind || k == StringTypeKind
+}
+
+// VInfixAdmits: `a op b` is well typed for operands of kind k (both operands
+// have the same type; == and != are defined for every type).
+func VInfixAdmits(op pAst.InfixOperator, k TypeKind) bool {
+	if op == pAst.EqualInfixOperator || op == pAst.NotEqualInfixOperator {
+		return true
+	}
+	switch k {
+	case IntTypeKind:
+		return pAst.VIsIntArith(op) || pAst.VIsCompare(op)
+	case FloatTypeKind:
+		return pAst.VIsFloatArith(op) || pAst.VIsCompare(op)
+	case BoolTypeKind:
+		return op == pAst.BitOrInfixOperator || op == pAst.BitAndInfixOperator || op == pAst.BitXorInfixOperator || op == pAst.LogicalOrInfixOperator || op == pAst.LogicalAndInfixOperator
+	case StringTypeKind:
+		return op == pAst.PlusInfixOperator
+	}
+	return false
+}
+
+// VInfixResultKind: comparisons and (in)equality yield bool, every other
+// admitted operator yields the operand type.
+func VInfixResultKind(op pAst.InfixOperator, k TypeKind) TypeKind {
+	if pAst.VIsCompare(op) || op == pAst.EqualInfixOperator || op == pAst.NotEqualInfixOperator {
+		return BoolTypeKind
+	}
+	return k
+}
+
+// VPrefixAdmits: `op x` is well typed for an operand of kind k: minus on
+// numbers, `!` on bool and int (bitwise complement), `?x` on every type.
+func VPrefixAdmits(op pAst.PrefixOperator, k TypeKind) bool {
+	switch op {
+	case pAst.MinusPrefixOperator:
+		return k == IntTypeKind || k == FloatTypeKind
+	case pAst.NegatePrefixOperator:
+		return k == IntTypeKind || k == BoolTypeKind
+	case pAst.IntoSomePrefixOperator:
 		return true
 	}
 	return false
